@@ -165,7 +165,7 @@ func derivations(thorough bool, f func(name string, ss []string)) {
 		}
 	}
 	// arithmetic commands whose expression has several parts
-	for _, t := range [][]string{{"((é+$v))"}, {"a", ";", "((é+$v))"}, {"((é+$v))", "&&", "a"}, {"if", "((é+$v))", ";", "then", "a", ";", "fi"}, {"((é+$v))", ">", "f"}} {
+	for _, t := range [][]string{{"((é+$v))"}, {"a", ";", "((é+$v))"}, {"((é+$v))", "&&", "a"}, {"if", "((é+$v))", ";", "then", "a", ";", "fi"}, {"((é+$v))", ">", "f"}, {"((é + 1))"}, {"a", "&&", "((é + 1))"}} {
 		f("D0", t)
 	}
 	// D(2): compound inside compound
